@@ -6,12 +6,16 @@
 * `Risky`      a node class with a `Boom` property (failure injection at any nested node position)
 * `BoomSource` a source class with a `Boom` field (failure injection below an origin)
 * `Probe`      a node class whose `__pre_deserialize__` hook records the options / dialect it sees
+* `Upper`, `UpperSource`, `UpperPos`   a node / source / position class whose property AND child field names
+               sort *before* the type tag key "__type" (upper-case names, "_<digit>" names): "tag first" is
+               then not a consequence of sorting the whole mapping
 """
 from __future__ import annotations
 
 import dataclasses
 import enum
 import json
+import re
 from dataclasses import dataclass
 from pathlib import Path
 
@@ -89,23 +93,87 @@ class BoomSource(Source):
     b: Boom = Boom()
 
 
+@dataclass(frozen=True)
+class UpperSource(Source):
+    KIND: str = "k"
+    _9z: int = 0
+
+
+@dataclass(frozen=True)
+class UpperPos(Position):
+    LINE: int = 1
+    Col: int = 0
+    _0: str = ""
+
+    @property
+    def fqn(self) -> str:
+        return f"U{self.LINE}:{self.Col}{self._0}"
+
+
+@dataclass(frozen=True)
+class Upper(zoo.Expr):
+    """property and child field names that sort before "__type" """
+
+    FROM: zoo.Expr | None = None
+    DISTINCT: bool = False
+    _1k: zoo.Expr | None = None
+    ID: int = 0
+    ARGS: tuple[zoo.Expr, ...] = ()
+    _0: str = ""
+    Zz: str = "z"
+    lower: str = ""
+
+
+def upper_origin(k: int = 0, line: int = 1):
+    return Origin(UpperSource(f"up{k}", "U", KIND=f"K{k}", _9z=k), UpperPos(LINE=line, Col=k, _0="p"))
+
+
 # ---------------------------------------------------------------- the harness' own knowledge
 
 CHILD_FIELDS = dict(zoo.CHILD_FIELDS)
 CHILD_FIELDS[Risky] = [("c", False)]
 CHILD_FIELDS[Probe] = [("c", False)]
+CHILD_FIELDS[Upper] = [("FROM", False), ("_1k", False), ("ARGS", True)]
 
 # fields whose annotation mentions `int` (the custom dialect rewrites the ints below them)
-INT_FIELDS = {
-    "Leaf": {"v", "cnt"}, "Leaf2": {"v", "cnt"}, "Falsy": {"n"}, "Probe": {"n"},
-    "PropZoo": {"t", "fs", "o", "hidden"}, "CodePoint": {"index", "line", "column"},
-}
-# fields with init=False: the generated from_dict never reads them
-NOT_INIT = {
-    "MultiOrigin": {"source", "position"}, "GeneratedCodeOrigin": {"position"},
-    "SourceSet": {"source_uri", "source_type"}, "MemoryTextSource": {"source_type"},
-    "Leaf": {"cnt"}, "Leaf2": {"cnt"},
-}
+class _IntFields(dict):
+    """class name -> names of the fields whose *annotation text* mentions `int` (the harness' own reading of
+    the dataclass definitions: `int`, `int | None`, `tuple[int, ...]`, `frozenset[int]`; enums, bools and
+    Literals are untouched by the dialect).  Computed on demand so that classes added to zoo.py later need
+    no table entry here."""
+
+    def _classes(self):
+        import pyoak.origin as _po
+        import sys
+        out = {}
+        for mod in (_po, zoo, sys.modules[__name__]):
+            for name, c in vars(mod).items():
+                if isinstance(c, type) and dataclasses.is_dataclass(c):
+                    out.setdefault(name, c)
+        return out
+
+    def __missing__(self, name):
+        c = self._classes().get(name)
+        v = set() if c is None else {f.name for f in dataclasses.fields(c) if re.search(r"\bint\b", str(f.type))}
+        self[name] = v
+        return v
+
+    def get(self, name, default=None):
+        return self[name]
+
+
+INT_FIELDS = _IntFields()
+class _NotInit(_IntFields):
+    """class name -> fields with init=False: the generated from_dict never reads them"""
+
+    def __missing__(self, name):
+        c = self._classes().get(name)
+        v = set() if c is None else {f.name for f in dataclasses.fields(c) if not f.init}
+        self[name] = v
+        return v
+
+
+NOT_INIT = _NotInit()
 PROBE_CLASSES = {"Probe"}
 
 
